@@ -95,3 +95,47 @@ def run_batches(wd, module, cfg_text, items, consts, batch_size=40, timeout=3000
         for f in tagged_tuples(out, "SUMMARY"):
             res.summaries[unq(f[1])] = f[2:]
     return res
+
+
+CFG_TRACE_ALLOC = """SPECIFICATION TSpec
+CONSTANT Reserved <- TReserved
+CONSTANT Wildcards <- TWildcards
+INVARIANT Progress
+INVARIANT Fresh
+POSTCONDITION Accepted
+CHECK_DEADLOCK FALSE
+"""
+
+
+def run_trace_batches(wd, module, cfg_text, traces, batch_size=60, parallel=None):
+    """Trace validation of hook events against a design model. traces: list of dicts (id, stmts, events).
+    Returns (accepted ids, rejected [(id, matched, total, next event)], fails, states, errors)."""
+    batches = []
+    for i in range(0, len(traces), batch_size):
+        bdir = os.path.join(wd, "t%03d" % (i // batch_size))
+        os.makedirs(bdir, exist_ok=True)
+        with open(os.path.join(bdir, "Data.tla"), "w") as fh:
+            fh.write("---- MODULE Data ----\nEXTENDS Integers\nTraces == <<\n  " + ",\n  ".join(enc(t) for t in traces[i:i + batch_size]) + "\n>>\n====\n")
+        with open(os.path.join(bdir, "T.tla"), "w") as fh:
+            fh.write("---- MODULE T ----\nEXTENDS %s\n====\n" % module)
+        with open(os.path.join(bdir, "T.cfg"), "w") as fh:
+            fh.write(cfg_text)
+        batches.append(bdir)
+    outs = run_tlc_many([dict(module_dir=b, module="T", cfg="T.cfg", workers=1, timeout=1800) for b in batches], parallel)
+    ok, rej, fails, states, errors = [], [], [], 0, []
+    for bdir, (code, out, wall) in zip(batches, outs):
+        with open(os.path.join(bdir, "tlc.out"), "w") as fh:
+            fh.write(out)
+        states += tlc_stats(out)[0]
+        errs = tlc_errors(out)
+        if errs or code != 0:
+            errors.append("%s: exit %s %s" % (bdir, code, "; ".join(errs)[:600]))
+        for f in tagged_tuples(out, "FAIL"):
+            fails.append((unq(f[1]), unq(f[2]), ", ".join(f[3:])))
+        for f in tagged_tuples(out, "TRACE"):
+            tid, got, total = unq(f[1]), int(f[2]), int(f[3])
+            if got == total:
+                ok.append(tid)
+            else:
+                rej.append((tid, got, total, f[4] if len(f) > 4 else ""))
+    return ok, rej, fails, states, errors
